@@ -80,7 +80,7 @@ type vpReadResult struct {
 func vpReadBody(r io.Reader, sizes []int) (res vpReadResult) {
 	buf := make([]byte, 8192)
 	zero := 0
-	for i := 0; i < 200000; i++ {
+	for i := 0; i < 4000000; i++ {
 		n := len(buf)
 		if len(sizes) > 0 {
 			n = sizes[i%len(sizes)]
@@ -108,7 +108,7 @@ func vpReadBody(r io.Reader, sizes []int) (res vpReadResult) {
 			zero = 0
 		}
 	}
-	res.err = fmt.Errorf("harness: body did not end after 200000 reads")
+	res.err = fmt.Errorf("harness: body did not end after 4000000 reads")
 	return res
 }
 
